@@ -30,6 +30,27 @@ def footprint(state):
     return out
 
 
+def all_accesses(events, state):
+    """every access (private ones included) of an invocation with its lockset"""
+    begun, held, out, seen = False, [], [], set()
+    for ev in events:
+        if ev[0] == 'invocation-begin':
+            begun = True
+        elif not begun:
+            continue
+        elif ev[0] == 'lock':
+            held.append(ev[1])
+        elif ev[0] == 'unlock':
+            if ev[1] in held:
+                held.remove(ev[1])
+        elif ev[0] in ('shared_write', 'shared_read', 'priv_write', 'priv_read'):
+            a = ('w' if ev[0].endswith('write') else 'r', (ev[1], ev[2]), tuple(sorted(map(str, held))), ev[3])
+            if (a[0], a[1][0], a[2], a[3]) not in seen:
+                seen.add((a[0], a[1][0], a[2], a[3]))
+                out.append(a)
+    return out
+
+
 def race_query(a, b):
     """two invocations, access a in the first and b in the second: is there a schedule in which they are adjacent (unordered)?
     program order is irrelevant for a single pair; the only ordering source is a common mutex (critical sections exclude each other)."""
@@ -50,22 +71,42 @@ def main():
     run = Run('C13', level='model_checking', anchors=ANCHORS)
 
     def body():
-        e = 'VerifHarness_C13_Invocation'
-        prog, secs = driver.load('server', 'server', ['c13_harness.go', 'c09_intr_sym.go'], [e])
+        prog, secs = driver.load('server', 'server', ['c13_harness.go', 'c09_intr_sym.go'], ['VerifHarness_C13_Setup', 'VerifHarness_C13_Invoke'])
         run.log('SSA of %d functions built in %.1fs' % (len(prog['funcs']), secs))
         stubs.HAVOC_BOUND['n'] = 2 if run.thorough else 1
         from gosym import Exec, Unsupported
-        ex = Exec(prog, stubs.make_stubs(), loop_bound=12, max_paths=200000)
-        full = [n for n in prog['funcs'] if n.endswith('.' + e)][0]
+        name = lambda e: [n for n in prog['funcs'] if n.endswith('.' + e)][0]
         try:
-            res = ex.run(full)
+            ex0 = Exec(prog, stubs.make_stubs(), loop_bound=12)
+            setups = [r for r in ex0.run(name('VerifHarness_C13_Setup')) if r.status == 'ok']
+            res, second = [], []
+            for s0 in setups:
+                ex = Exec(prog, stubs.make_stubs(), loop_bound=12, max_paths=200000)
+                ex.skip_init = True
+                st = s0.state.clone()
+                st.events = []
+                r1 = ex.run(name('VerifHarness_C13_Invoke'), state=st)
+                res += r1
+                # distinct shared end-states in which the invocation changed or published shared state: a later invocation starts from them
+                sigs = {}
+                for r in r1:
+                    if r.status == 'ok' and any(ev[0] == 'shared_write' for ev in r.state.events):
+                        sig = tuple(sorted(set((ev[1], ev[2]) for ev in r.state.events if ev[0] == 'shared_write')))
+                        sigs.setdefault(sig, r)
+                for sig, r in list(sigs.items())[:4]:
+                    ex2 = Exec(prog, stubs.make_stubs(), loop_bound=12, max_paths=200000)
+                    ex2.skip_init = True
+                    st2 = r.state.clone()
+                    first_events = list(st2.events)
+                    st2.events = []
+                    for r2 in ex2.run(name('VerifHarness_C13_Invoke'), state=st2):
+                        if r2.status == 'ok':
+                            second.append((first_events, r.state, r2))
         except Unsupported as x:
             run.inconclusive.append('footprint extraction unsupported: %s' % x)
             run.obligation('footprint extraction completes', 'unsupported', 'unsat', 0.0)
             run.finish('footprint extraction failed')
             return
-        if ex.incomplete:
-            run.inconclusive.append('exploration incomplete: ' + ex.incomplete)
         paths = [r for r in res if r.status == 'ok']
         bad = [r for r in res if r.status not in ('ok', 'infeasible')]
         run.obligation('every path of one invocation runs to completion (%d paths)' % len(paths), 'unsat' if not bad else 'sat', 'unsat', 0.0, statuses=dict(collections.Counter(r.status for r in res)))
@@ -94,7 +135,21 @@ def main():
                 run.obligation('no schedule of two invocations puts the write at %s next to the %s at %s (same location, no common lock)' % (w[3], 'write' if b[0] == 'w' else 'read', b[3]), r, 'unsat', secs)
                 if r == 'sat':
                     races.append((w, b))
-        run.obligation('shared writes of one invocation: every one is ordered against every access of another invocation (%d candidate pairs)' % nq, 'unsat' if not races else 'sat', 'unsat', 0.0)
+        # an invocation that starts after another one has published state: its accesses to objects the earlier one still uses
+        n2 = 0
+        for first_events, st1, r2 in second[:200]:
+            a1 = all_accesses(first_events, st1)
+            for b in footprint(r2.state):
+                for a in a1:
+                    if a[1][0] != b[1][0] or (a[0] != 'w' and b[0] != 'w'):
+                        continue
+                    r, secs = race_query(a, b)
+                    n2 += 1
+                    if r == 'sat' and not any(x[0][3] == a[3] and x[1][3] == b[3] for x in races):
+                        run.obligation('a later invocation\'s %s at %s is ordered against the earlier invocation\'s %s at %s on the object it published' % ('write' if b[0] == 'w' else 'read', b[3], 'write' if a[0] == 'w' else 'read', a[3]), r, 'unsat', secs)
+                        races.append((a, b))
+        run.extra['second_invocation_pairs'] = n2
+        run.obligation('shared writes of one invocation: every one is ordered against every access of another invocation (%d candidate pairs, %d with a preceding invocation)' % (nq, n2), 'unsat' if not races else 'sat', 'unsat', 0.0)
         run.samples = run.extra['shared_accesses'][:6] or [{'note': 'no shared access'}]
         if races:
             w, b = races[0]
